@@ -3,7 +3,12 @@ package props
 import (
 	"errors"
 	"fmt"
+	"os"
+	"os/exec"
+	"path/filepath"
 	"runtime"
+	"strconv"
+	"strings"
 
 	"github.com/alttpo/snes/mapping/exhirom"
 	"github.com/alttpo/snes/mapping/hirom"
@@ -166,13 +171,134 @@ func isUnmapped(v uint32, err error) (unmapped, wellFormed bool) {
 
 func init() { reg("C04", C04); reg("C05", C05) }
 
+// mapperOrder is the order in which the four mappers are first used in this process
+// (VERIF_MAPPER_ORDER=2,0,3,1 in child processes): package state initialised on first use must not
+// depend on which mapper a program happens to call first.
+func mapperOrder() []int {
+	order := []int{0, 1, 2, 3}
+	if v := os.Getenv("VERIF_MAPPER_ORDER"); v != "" {
+		var o []int
+		for _, f := range strings.Split(v, ",") {
+			if n, err := strconv.Atoi(f); err == nil && n >= 0 && n < 4 {
+				o = append(o, n)
+			}
+		}
+		if len(o) == 4 {
+			order = o
+		}
+	}
+	return order
+}
+
+// coldStartChildren runs many short-lived child processes, each making its first mapper calls from
+// 16 goroutines at once.
+func coldStartChildren(r *vf.Run) {
+	if os.Getenv("VERIF_MAPPER_ORDER") != "" || r.OnlyPhase != "" {
+		return
+	}
+	exe, err := os.Executable()
+	if err != nil {
+		return
+	}
+	n := r.N(24, 240)
+	orders := []string{"0,1,2,3", "1,2,3,0", "2,3,0,1", "3,0,1,2"}
+	out := filepath.Join(vf.ScratchDir(), "cold-"+r.ID)
+	_ = os.MkdirAll(out, 0o755)
+	defer os.RemoveAll(out)
+	for i := 0; i < n; i++ {
+		cmd := exec.Command(exe, r.ID, r.Tier)
+		cmd.Env = append(os.Environ(), "VERIF_COLDSTART=1", "VERIF_MAPPER_ORDER="+orders[i%4], "VERIF_OUT="+out)
+		b, err := cmd.CombinedOutput()
+		r.Eval(1)
+		if ee, ok := err.(*exec.ExitError); ok && ee.ExitCode() == 1 {
+			first := "child reported a violation"
+			for _, ln := range strings.Split(string(b), "\n") {
+				if strings.Contains(ln, "violation[") {
+					first = strings.TrimSpace(ln)
+					break
+				}
+			}
+			r.Fail("first-use-under-concurrency", fmt.Sprintf("fresh process #%d whose first mapper calls come from 16 goroutines at once: %s", i, first), nil)
+			break
+		} else if err != nil {
+			if _, ok := err.(*exec.ExitError); !ok {
+				r.Inconclusive("cold-start child failed to start: " + err.Error())
+				break
+			}
+		}
+	}
+	r.CellN("cold-start-processes", int64(n))
+}
+
+// otherOrders re-runs the monitor in fresh child processes that use the mappers in other orders.
+func otherOrders(r *vf.Run) {
+	if os.Getenv("VERIF_MAPPER_ORDER") != "" || r.OnlyPhase != "" {
+		return
+	}
+	orders := []string{"3,2,1,0", "2,0,3,1", "1,3,0,2"}
+	if !r.Quick() {
+		orders = nil
+		var perm func(a []int, k int)
+		perm = func(a []int, k int) {
+			if k == len(a) {
+				if !(a[0] == 0 && a[1] == 1 && a[2] == 2) {
+					orders = append(orders, fmt.Sprintf("%d,%d,%d,%d", a[0], a[1], a[2], a[3]))
+				}
+				return
+			}
+			for i := k; i < len(a); i++ {
+				a[k], a[i] = a[i], a[k]
+				perm(a, k+1)
+				a[k], a[i] = a[i], a[k]
+			}
+		}
+		perm([]int{0, 1, 2, 3}, 0)
+	}
+	exe, err := os.Executable()
+	if err != nil {
+		r.Inconclusive("cannot locate own executable for the mapper-order child runs: " + err.Error())
+		return
+	}
+	for _, o := range orders {
+		out := filepath.Join(vf.ScratchDir(), "child-"+r.ID+"-"+strings.ReplaceAll(o, ",", ""))
+		_ = os.MkdirAll(out, 0o755)
+		cmd := exec.Command(exe, r.ID, r.Tier)
+		cmd.Env = append(os.Environ(), "VERIF_MAPPER_ORDER="+o, "VERIF_OUT="+out, fmt.Sprintf("VERIF_SEED=%d", r.Seed))
+		b, err := cmd.CombinedOutput()
+		r.Eval(1)
+		r.Cell("process-order:" + o)
+		code := 0
+		if ee, ok := err.(*exec.ExitError); ok {
+			code = ee.ExitCode()
+		} else if err != nil {
+			r.Inconclusive("child run failed to start: " + err.Error())
+			continue
+		}
+		switch code {
+		case 0:
+		case 1:
+			first := "child reported a violation"
+			for _, ln := range strings.Split(string(b), "\n") {
+				if strings.Contains(ln, "violation[") {
+					first = strings.TrimSpace(ln)
+					break
+				}
+			}
+			r.Fail("depends-on-first-use-order", fmt.Sprintf("with the mappers first used in the order %s (fresh process): %s", o, first), map[string]string{"VERIF_MAPPER_ORDER": o})
+		default:
+			r.Inconclusive(fmt.Sprintf("child run with mapper order %s exited %d", o, code))
+		}
+		_ = os.RemoveAll(out)
+	}
+}
+
 // C04: the two inverse laws, evaluated by composing the real functions over
 // all 2^24 bus and all 2^24 pak addresses of each mapper.
 func C04(r *vf.Run) {
-	r.Rule = "exhaustive sweep of all 2^24 bus addresses (law 1: B2P(P2B(B2P(b)))==B2P(b)) and all 2^24 pak addresses (law 2: P2B(p) is mapped, same class, same offset in its 8 KiB page) for each of the 4 mappers; a cell is (mapper, law, memory class of the address)"
+	r.Rule = "exhaustive sweep of all 2^24 bus addresses (law 1: B2P(P2B(B2P(b)))==B2P(b)) and all 2^24 pak addresses (law 2: P2B(p) is mapped, same class, same offset in its 8 KiB page) for each of the 4 mappers, repeated in fresh child processes that first use the mappers in other orders; a cell is (mapper, law, memory class of the address) or a first-use order"
 	r.Exhaustive = true
 	r.Assume = []string{"pak-side class windows: ROM < $E00000, SRAM $E0-$EF, WRAM $F5-$F6 with $F7-$FF counted as WRAM mirrors"}
-	for mi := range mappers {
+	for _, mi := range mapperOrder() {
 		m := mappers[mi]
 		if !r.Phase(m.name) {
 			continue
@@ -225,6 +351,7 @@ func C04(r *vf.Run) {
 		})
 		r.Sample(map[string]interface{}{"mapper": m.name, "bus": "$808000", "pak": fmt.Sprintf("$%06x", first(m.b2p(0x808000)))})
 	}
+	otherOrders(r)
 	if r.OnlyPhase == "" {
 		for _, m := range mappers {
 			for _, c := range []string{"law1:rom", "law1:sram", "law1:wram", "law2:rom", "law2:sram", "law2:wram", "law2:wram-mirror", "law2:rejected"} {
@@ -237,11 +364,55 @@ func C04(r *vf.Run) {
 func first(v uint32, _ error) uint32 { return v }
 
 // C05: structural invariants + declarative region table.
+// coldStartProbe is what a C05 child process does under VERIF_COLDSTART=1: the very first calls
+// of each mapper in the process are made by 16 goroutines at the same instant and compared with
+// the region table (first-use initialisation must be safe under concurrency).
+func coldStartProbe(r *vf.Run) {
+	for _, mi := range mapperOrder() {
+		m := mappers[mi]
+		r.Phase("cold-start:" + m.name)
+		vf.Parallel(16, 16, func(w, i int) {
+			for k := 0; k < 4096; k++ {
+				a := (uint32(i)*0x100000 + uint32(k)*0x2FF1) & 0xFFFFFF
+				var g *region
+				for ri := range m.regs {
+					x := &m.regs[ri]
+					if a>>16 >= x.bankLo && a>>16 <= x.bankHi && a&0xFFFF >= x.offLo && a&0xFFFF <= x.offHi {
+						g = x
+					}
+				}
+				p, err := m.b2p(a)
+				if g == nil {
+					continue
+				}
+				if g.class == "none" {
+					if err == nil {
+						r.Fail(m.name+"-cold-start", fmt.Sprintf("%s: first concurrent calls: B2P($%06x)=$%06x, table region %s says unmapped", m.name, a, p, g.name), nil)
+					}
+				} else if err != nil || p != g.eval(a) {
+					r.Fail(m.name+"-cold-start", fmt.Sprintf("%s: first concurrent calls: B2P($%06x)=($%06x,%v), table region %s says $%06x", m.name, a, p, err, g.name, g.eval(a)), nil)
+				}
+				if q, err := m.p2b(a); err == nil && q > 0xFFFFFF {
+					r.Fail(m.name+"-cold-start", fmt.Sprintf("%s: first concurrent calls: P2B($%06x)=$%x", m.name, a, q), nil)
+				}
+			}
+			r.Eval(4096)
+		})
+		r.Cell("cold:" + m.name)
+	}
+	r.Cell("cold:done")
+}
+
 func C05(r *vf.Run) {
-	r.Rule = "exhaustive sweep of all 2^24 bus and 2^24 pak addresses x 4 mappers: error shape, class windows, reject set, 8 KiB page uniformity and order preservation in both directions, console-owned agreement, and equality with a declarative region table; a cell is (mapper, table region) or (mapper, pak class)"
+	if os.Getenv("VERIF_COLDSTART") != "" {
+		r.Rule = "cold-start probe (child process)"
+		coldStartProbe(r)
+		return
+	}
+	r.Rule = "exhaustive sweep of all 2^24 bus and 2^24 pak addresses x 4 mappers: error shape, class windows, reject set, 8 KiB page uniformity and order preservation in both directions, console-owned agreement, and equality with a declarative region table, repeated in fresh child processes that first use the mappers in other orders (workers released by a start barrier, so first use is concurrent); a cell is (mapper, table region), (mapper, pak class) or a first-use order"
 	r.Exhaustive = true
 	r.Assume = []string{"region tables in props/mappers.go transcribe the documentation comments of the mapper sources"}
-	for mi := range mappers {
+	for _, mi := range mapperOrder() {
 		m := mappers[mi]
 		if !r.Phase(m.name) {
 			continue
@@ -363,6 +534,8 @@ func C05(r *vf.Run) {
 		r.Eval(n)
 		r.CellN("cross:console-addresses", n)
 	}
+	otherOrders(r)
+	coldStartChildren(r)
 	if r.OnlyPhase == "" {
 		for _, m := range mappers {
 			for _, g := range m.regs {
